@@ -22,6 +22,18 @@ def cfgs(tier):
     return out
 
 
+BIG = {'quick': 'gen/MC_BigLen_dec_q.cfg', 'thorough': 'gen/MC_BigLen_dec_t.cfg'}
+
+
+def bigsig(r):
+    c = r['case'] if isinstance(r.get('case'), dict) else {}
+    s = {'format': c.get('f'), 'bytes': 'big %s n=%s %s head=%s' % (c.get('shape'), c.get('n'), c.get('variant'), bytes(c.get('head', [])).hex())}
+    for k in ('entry', 'what'):
+        if k in r:
+            s[k] = r[k]
+    return s
+
+
 def sig(r):
     c = r['case']
     s = {'format': c.get('f'), 'bytes': bytes(c.get('b', [])).hex() if isinstance(c, dict) else '?'}
@@ -33,6 +45,8 @@ def sig(r):
 
 def setup():
     vf.build('c07', ['c07.cpp'])
+    vf.build('cbig', ['cbig.cpp'])
+    vf.tlc_gen('gen/MC_BigLen', BIG['quick'], timeout=300)
     for c in cfgs('quick'):
         vf.tlc_gen('gen/MC_C07', c, timeout=2400)
 
@@ -42,6 +56,10 @@ def run(tier):
     binary = vf.build('c07', ['c07.cpp'])
     gens = [vf.tlc_gen('gen/MC_C07', c, timeout=3000) for c in cfgs(tier)]
     totals = vf.g_replay(rep, binary, gens, sig)
+    big = vf.g_replay(rep, vf.build('cbig', ['cbig.cpp']), [vf.tlc_gen('gen/MC_BigLen', BIG[tier], timeout=300)], bigsig, args=['--mode', 'dec'])
+    for k in ('cases', 'checks'):
+        totals[k] = totals.get(k, 0) + big.get(k, 0)
+    rep.coverage['long_length_cases'] = big.get('cases', 0)
     rep.coverage['known_findings_replayed'] = vf.witness_findings(PROP, binary)
     cov = rep.coverage
     cov['traces_validated_against_impl'] = totals.get('cases', 0)
@@ -53,7 +71,11 @@ def run(tier):
                    'format\'s representative set, up to MaxLen bytes (BFS: every strict prefix is a case); (tok) every sequence of up to MaxLen '
                    'head/payload tokens (each major type / type code at every argument width with boundary arguments, reserved codes, '
                    'indefinite markers, break, UTF-8 valid/invalid payload); verdict and value predicted by the TLA+ reference decoder; '
-                   '4 entry points per case')
+                   '4 entry points per case; long-length family (spec/BinHeads.tla, MC_BigLen): every header form (every argument width, definite / '
+                   'indefinite / counted / typed / uncounted) of a text string, byte string, array, map and member name of length n in {255, 256, 32767, '
+                   '32768, 65535, 65536} (thorough + 127, 128, 70000) with the exact payload (accepted, kind and length predicted), one unit short or '
+                   'without its terminator (rejected), and with a length written in a signed type that cannot hold it / a wrong BSON document length '
+                   '(rejected); 3 entry points')
     cov['formats'] = sorted({c.split('MC_C07')[1].split('_')[0] for c in cfgs(tier)})
     cov['bounds'] = {c: open(os.path.join(vf.SPEC, c)).read().split('CONSTANTS')[1].split()[:9] for c in cfgs(tier)}
     cov['samples'] = vf.sample_lines(gens[-1][0], 3)
@@ -65,12 +87,13 @@ def run(tier):
 
 def replay(path):
     d = json.load(open(path))
-    binary = vf.build('c07', ['c07.cpp'])
-    recs = vf.run_one(binary, d['case'])
+    big = 'prog' in d['case']
+    binary = vf.build('cbig', ['cbig.cpp']) if big else vf.build('c07', ['c07.cpp'])
+    recs = vf.run_one(binary, d['case'], args=['--mode', 'dec'] if big else [])
     bad = [r for r in recs if r.get('k') != 'stat']
     for r in bad:
         print(json.dumps({k: v for k, v in r.items() if k != 'case'}))
-    print('input=%s %s' % (d['case'].get('f'), bytes(d['case'].get('b', [])).hex()))
+    print('input=%s %s' % (d['case'].get('f'), bytes(d['case'].get('b', [])).hex() if not big else json.dumps({k: d['case'][k] for k in ('shape', 'n', 'variant', 'head', 'prog', 'trailer', 'expect')})))
     if bad:
         print('VIOLATION property=%s replay=%s' % (PROP, path))
         return 1
